@@ -113,6 +113,7 @@ SAFE_METHODS = {
     set: {'add', 'discard', 'copy', 'update'},
     tuple: {'index', 'count'},
     re.Match: {'group', 'groups', 'start', 'end', 'span'},
+    re.Pattern: {'fullmatch', 'match', 'search', 'findall', 'split', 'finditer'},
 }
 
 
@@ -126,7 +127,8 @@ PURE_STDLIB = {
     'textwrap.dedent': lambda it, s: _textwrap.dedent(s), 'textwrap.indent': lambda it, s, p: _textwrap.indent(s, p),
     're.sub': _re_sub, 're.match': lambda it, p, s, *a: re.match(p, s, *a), 're.fullmatch': lambda it, p, s, *a: re.fullmatch(p, s, *a),
     're.search': lambda it, p, s, *a: re.search(p, s, *a), 're.split': lambda it, p, s, *a: re.split(p, s, *a), 're.findall': lambda it, p, s, *a: re.findall(p, s, *a),
-    're.escape': lambda it, s: re.escape(s),
+    're.escape': lambda it, s: re.escape(s), 're.compile': lambda it, p, *a: re.compile(p, *[x for x in a if isinstance(x, int)]),
+    're.finditer': lambda it, p, s, *a: list((p if isinstance(p, re.Pattern) else re.compile(p)).finditer(s)),
 }
 
 
@@ -464,6 +466,8 @@ class Interp:
         raise AnalysisError(f'interpreter: unmodelled expression `{norm(e)[:80]}`')
 
     def _getattr(self, base, attr, d):
+        if isinstance(base, ClassRef) and base.name == 're' and attr.isupper() and hasattr(re, attr):
+            return int(getattr(re, attr))
         if isinstance(base, ClassRef):
             return ClassRef(f'{base.name}.{attr}')
         if isinstance(base, Obj):
@@ -588,6 +592,9 @@ class Interp:
         f = self.ev(e.func, env) if not isinstance(e.func, ast.Name) else None
         if isinstance(f, BoundMethod):
             base = f.base
+            if isinstance(base, re.Pattern) and f.attr in ('sub', 'subn'):
+                repl = args[0]
+                return getattr(base, f.attr)((lambda m: repl(m)) if callable(repl) else repl, *args[1:], **kwargs)
             for t, names in SAFE_METHODS.items():
                 if isinstance(base, t) and f.attr in names:
                     return getattr(base, f.attr)(*args, **kwargs)
